@@ -2,336 +2,432 @@
 (* Implementation-shaped model of ONE engine.io session of zishang520/         *)
 (* engine.io: socket (engine/socket.go), polling and websocket transports      *)
 (* (transports/*.go), the client registry (engine/base-server.go), an upgrade  *)
-(* candidate, and a protocol-conformant client.  One action per critical       *)
-(* section of the Go code; multi-step code paths are several actions, so that  *)
-(* TLC explores the interleavings of the handler, writer, timer and            *)
-(* application goroutines.                                                     *)
+(* candidate, and a protocol-conformant client.                                *)
 (*                                                                            *)
-(* Deviations (constant): behaviours the code HAD and that were repaired by    *)
-(* fix: commits; with the deviation in the set the model is the old code:      *)
-(*   "CloseRace"     OnClose tests readyState and stores "closed" separately   *)
-(*   "PollVsClose"   a poll accepted while the transport closes is not released*)
-(*   "OverlapRace"   overlap test and store of the pending poll are separate   *)
-(* With Deviations = {} the model is the code as it stands now.               *)
+(* The mutable state of the session is ONE record `s`; every procedure of the  *)
+(* Go code is an operator from records to records, named after the Go function *)
+(* it transcribes, so that composition reads like the code (sendPacket calls   *)
+(* flush, OnClose calls clearTransport calls transport.Close calls DoClose ..). *)
+(* Every place where another goroutine can run in between is a separate        *)
+(* action (a "window"); each window is a verif gate or a listener gate of the  *)
+(* harness, so TLC behaviours can be replayed step by step into the real code: *)
+(*                                                                            *)
+(*   window                         model step boundary        harness gate    *)
+(*   flush: buffer taken, "flush"   FlushTake | FlushHand      L.flush         *)
+(*     listeners running                                                      *)
+(*   `go send` goroutine started    TrSend | PollWrite/WsWrite polling.send.   *)
+(*     but not yet writing                                     enter, ws.send. *)
+(*                                                             enter           *)
+(*   OnClose: state swapped         CloseEnter | CloseMid      socket.onclose. *)
+(*                                                             tested          *)
+(*   OnClose: "close" listeners     CloseMid | CloseFinish     L.close         *)
+(*     running (registry first,                                                *)
+(*     application, candidate last)                                            *)
+(*   upgrade check: writable seen   (CheckTick is atomic here; its hand-off    *)
+(*     | noop sent                   bypasses flushMu, which is the point)     *)
+(*                                                                            *)
+(* Deviations (constant): behaviours the code HAD (repaired by fix: commits)   *)
+(* or that a plausible regression would introduce; with a deviation in the set *)
+(* TLC must find the corresponding property violated (sanity of the model):    *)
+(*   "CloseRace"       OnClose tests readyState and stores "closed" separately *)
+(*   "PollVsClose"     a poll accepted while the transport closes is not       *)
+(*                     released                                                *)
+(*   "StaleTransport"  flush hands the batch to the transport it saw when it   *)
+(*                     took the buffer (not the current one)                   *)
+(*   "LateClear"       flush copies the buffer and clears it after the         *)
+(*                     listeners ran (packets pushed in between are lost)      *)
+(*   "UpgradeOnClosed" an upgrade packet is honoured on a closed session       *)
+(*   "CheckNoLock"     the upgrade check hands its noop over without regard to *)
+(*                     a flush in progress                                     *)
+(*   "WsCloseCutsSend" closing the websocket does not wait for a batch already *)
+(*                     handed to its writer goroutine                          *)
+(*   "CloseSkipsTaken" Close looks only at the buffer, not at a batch a flush  *)
+(*                     in progress has already taken                           *)
+(* With Deviations = {} the model is the code as it stands.                    *)
 EXTENDS Integers, Sequences, FiniteSets, TLC, Json, EioProps
 
 CONSTANTS Msgs,        \* payload identifiers the application may send, e.g. {1,2}
           CliMsgs,     \* payload identifiers the client may submit
           MaxPolls,    \* bound on client poll requests
           MaxPings,    \* bound on server pings
-          Features,    \* subset of {"close","upgrade","heartbeat","overlap","peer"}
+          Features,    \* subset of {"close","upgrade","heartbeat","overlap","peer","window","closewin","abort","late"}
           Deviations
 
-VARIABLES
-  rs,         \* socket.readyState: "open" | "closing" | "closed"
-  cur,        \* current transport: "p" (polling) | "w" (websocket)
-  wbuf,       \* socket.writeBuffer: Seq of packets
-  writable,   \* [{"p","w"} -> BOOLEAN] transport.writable
-  trs,        \* [{"p","w"} -> "none"|"open"|"closing"|"closed"] transport.readyState
-  poll,       \* "none" | "accepting" | "pending"  (p.req of the polling transport)
-  inflight,   \* [{"p","w"} -> Seq of batches] handed to `go send`, not yet written
-  shouldClose,\* polling: orderly close buffered until the next write
-  discarded,  \* polling transport discarded by an upgrade or Close(true)
-  upgrading, upgraded,
-  cand,       \* "none" | "open" (ws opened, before MaybeUpgrade) | "attached" | "probed" | "dead"
-  registered, \* in the server's client table (with the close listener)
-  count,      \* server.clientsCount
-  closing,    \* set of reasons of OnClose calls that passed the state test and have not finished
-  pingOut,    \* a ping is outstanding (deadline armed)
-  \* ---- observation (what the monitor also sees)
-  sentLog,    \* messages accepted by Send, in order
-  rcvd,       \* messages the client received, in order
-  delivered,  \* client messages handed to the application
-  submitted,  \* client messages submitted while the session was open on the current transport
-  nclose,     \* number of close events
-  reasons,    \* reasons of the close events
-  npolls, npings, stuckPolls, hist
+VARIABLES s,     \* the session (record, see Init)
+          ob,    \* observation: what the monitor also sees (record)
+          hist   \* action history, printed by Emit (hidden from the exhaustive runs by the VIEW)
 
-vars == <<rs, cur, wbuf, writable, trs, poll, inflight, shouldClose, discarded, upgrading, upgraded, cand, registered, count,
-          closing, pingOut, sentLog, rcvd, delivered, submitted, nclose, reasons, npolls, npings, stuckPolls, hist>>
-view == <<rs, cur, wbuf, writable, trs, poll, inflight, shouldClose, discarded, upgrading, upgraded, cand, registered, count,
-          closing, pingOut, sentLog, rcvd, delivered, submitted, nclose, reasons, npolls, npings, stuckPolls>>
+vars == <<s, ob, hist>>
+view == <<s, ob>>
 
-H(a) == hist' = Append(hist, a)
+T == {"p", "w"}
 Msg(m) == [ty |-> "message", id |-> m]
 P(ty) == [ty |-> ty, id |-> 0]
 MsgsOf(batch) == LET ms == SelectSeq(batch, LAMBDA p : p.ty = "message") IN [i \in 1..Len(ms) |-> ms[i].id]
+SeqSet(q) == {q[i] : i \in 1..Len(q)}
 RECURSIVE Flat(_)
 Flat(bs) == IF bs = <<>> THEN <<>> ELSE Head(bs) \o Flat(Tail(bs))
+Remove(q, i) == SubSeq(q, 1, i - 1) \o SubSeq(q, i + 1, Len(q))
+Dev(d) == d \in Deviations
 
 \* the session right after an admitted polling handshake (open packet already answered)
-Init == /\ rs = "open" /\ cur = "p" /\ wbuf = <<>> /\ writable = [t \in {"p", "w"} |-> FALSE]
-        /\ trs = [t \in {"p", "w"} |-> IF t = "p" THEN "open" ELSE "none"]
-        /\ poll = "none" /\ inflight = [t \in {"p", "w"} |-> <<>>] /\ shouldClose = FALSE /\ discarded = FALSE
-        /\ upgrading = FALSE /\ upgraded = FALSE /\ cand = "none" /\ registered = TRUE /\ count = 1
-        /\ closing = {} /\ pingOut = FALSE
-        /\ sentLog = <<>> /\ rcvd = <<>> /\ delivered = <<>> /\ submitted = <<>> /\ nclose = 0 /\ reasons = <<>>
-        /\ npolls = 0 /\ npings = 0 /\ stuckPolls = 0 /\ hist = <<>>
+Init ==
+  /\ s = [rs |-> "open",            \* socket.readyState: open | closing | closed
+          cur |-> "p",              \* socket.transport: "p" polling | "w" websocket
+          att |-> [t \in T |-> t = "p"],   \* the socket's listeners are attached to transport t (setTransport .. clearTransport)
+          wbuf |-> <<>>,            \* socket.writeBuffer
+          fl |-> <<>>,              \* batch taken by a flush in progress (flushMu held), <<>> when none
+          flt |-> "p",              \* transport seen by that flush when it tested Writable
+          flk |-> "none",           \* what the flushing goroutine does after flush returns: none | poll | upg
+          wr |-> [t \in T |-> FALSE],      \* transport.writable
+          trs |-> [t \in T |-> IF t = "p" THEN "open" ELSE "none"],   \* transport.readyState (none: no such transport)
+          poll |-> "none",          \* polling.req: none | pending
+          infl |-> [t \in T |-> <<>>],     \* batches handed to `go send` goroutines that have not written yet
+          sc |-> FALSE,             \* polling.shouldClose set (orderly close buffered until the next write / close timeout)
+          scfn |-> FALSE,           \* .. and it carries socket.OnClose("forced close")
+          disc |-> FALSE,           \* polling transport discarded
+          upgrading |-> FALSE, upgraded |-> FALSE,
+          cand |-> "none",          \* none | attached | probed | dead
+          reg |-> TRUE, count |-> 1,       \* client table entry and clientsCount
+          enter |-> {},             \* reasons of OnClose calls that swapped the state and have not emitted close yet
+          mid |-> {},               \* reasons whose close event is being emitted (registry listener done, candidate listener not yet)
+          drainClose |-> FALSE,     \* Close(false) waits for the drain event
+          pingOut |-> FALSE,        \* a ping is outstanding
+          armed |-> FALSE]          \* .. and its timeout timer is armed
+  /\ ob = [sent |-> <<>>,           \* messages accepted by Send, in order
+           rcvd |-> <<>>,           \* messages the client received, in order
+           delivered |-> <<>>, submitted |-> <<>>,
+           nclose |-> 0, reasons |-> <<>>, npolls |-> 0, npings |-> 0, stuck |-> 0,
+           cut |-> 0,               \* batches with messages written to a connection that was already closed
+           accepted |-> {},         \* messages accepted before a graceful Close (C12)
+           hard |-> FALSE]          \* Close(true) was called
+  /\ hist = <<>>
 
 ----------------------------------------------------------------------------
-(* socket.flush (under flushMu): hand the whole buffer to the current transport *)
-CanFlush == rs # "closed" /\ writable[cur] /\ wbuf # <<>>
-FlushEff(buf, wr, infl) ==
-    IF rs # "closed" /\ wr[cur] /\ buf # <<>>
-    THEN [buf |-> <<>>, wr |-> [wr EXCEPT ![cur] = FALSE], infl |-> [infl EXCEPT ![cur] = Append(infl[cur], buf)]]
-    ELSE [buf |-> buf, wr |-> wr, infl |-> infl]
+(* ---- transports ---------------------------------------------------------- *)
+\* transport.Send: SetWritable(false); go send(batch)
+TrSend(x, t, batch) == [x EXCEPT !.wr[t] = FALSE, !.infl[t] = Append(@, batch)]
 
-(* transport.Close() of the polling transport (clearTransport / closeTransport): DoClose *)
-\* returns the new values of the polling fields
-PollDoClose(wr, infl, sc, disc) ==
-    IF trs["p"] # "open" THEN [wr |-> wr, infl |-> infl, sc |-> sc, st |-> trs["p"]]
-    ELSE IF wr["p"] THEN [wr |-> [wr EXCEPT !["p"] = FALSE], infl |-> [infl EXCEPT !["p"] = Append(infl["p"], <<P("close")>>)], sc |-> sc, st |-> "closed"]
-    ELSE IF disc THEN [wr |-> wr, infl |-> infl, sc |-> sc, st |-> "closed"]
-    ELSE [wr |-> wr, infl |-> infl, sc |-> TRUE, st |-> "closing"]
+\* socket.OnClose, first step: Swap("closed") (or, before fix aee54c8, a test only)
+CloseEnter(x, reason) ==
+    IF x.rs = "closed" THEN x
+    ELSE IF Dev("CloseRace") THEN [x EXCEPT !.enter = @ \cup {reason}]
+    ELSE [x EXCEPT !.rs = "closed", !.enter = @ \cup {reason}]
 
-(* socket.OnClose: state swap, then (second step) clear queues, clearTransport, emit close, unregister *)
-OnCloseEnter(reason) ==
-    IF "CloseRace" \in Deviations
-    THEN /\ rs # "closed" /\ closing' = closing \cup {reason} /\ UNCHANGED rs        \* test only; the store comes with the finish step
-    ELSE /\ rs # "closed" /\ rs' = "closed" /\ closing' = closing \cup {reason}       \* Swap("closed")
+\* the transport's "close"/"error" events reach socket.OnClose only while the socket's listeners are attached
+TrEvent(x, t, reason) == IF x.att[t] THEN CloseEnter(x, reason) ELSE x
 
-OnCloseFinish(reason) ==
-    /\ reason \in closing
-    /\ closing' = closing \ {reason}
-    /\ rs' = "closed"
-    /\ wbuf' = <<>>
-    /\ nclose' = nclose + 1 /\ reasons' = Append(reasons, reason)
-    /\ IF registered THEN registered' = FALSE /\ count' = count - 1 ELSE UNCHANGED <<registered, count>>
-    /\ pingOut' = FALSE
-    /\ LET d == IF cur = "p" THEN PollDoClose(writable, inflight, shouldClose, discarded)
-                ELSE [wr |-> writable, infl |-> inflight, sc |-> shouldClose, st |-> trs["p"]]
-       IN /\ writable' = d.wr /\ inflight' = d.infl /\ shouldClose' = d.sc
-          /\ trs' = IF cur = "p" THEN [trs EXCEPT !["p"] = d.st] ELSE [trs EXCEPT !["w"] = "closed"]
-    /\ cand' = IF cand \in {"attached", "probed"} THEN "dead" ELSE cand     \* the candidate's close listener fails the upgrade
-    /\ upgrading' = FALSE
-    /\ H([a |-> "onclose.finish", reason |-> reason])
-    /\ UNCHANGED <<cur, poll, discarded, upgraded, sentLog, rcvd, delivered, submitted, npolls, npings, stuckPolls>>
+\* polling.DoClose / websocket.DoClose behind transport.Close(fn); fn = socket.OnClose("forced close") when withFn
+TrClose(x, t, withFn) ==
+    IF x.trs[t] \in {"closed", "none"} \/ (x.trs[t] = "closing" /\ ~(t = "p" /\ x.disc)) THEN x
+    ELSE IF t = "w"
+    THEN \* fn(); defer conn.Close()  (the reader then reports the closed connection: transport "close")
+         LET a == [x EXCEPT !.trs["w"] = "closed"]
+             b == IF withFn THEN CloseEnter(a, "forced close") ELSE a
+         IN TrEvent(b, "w", "transport close")
+    ELSE LET onClose(y) == \* fn(); p.OnClose() -> (writable: noop) -> readyState closed, emit close
+                 LET b == IF withFn THEN CloseEnter(y, "forced close") ELSE y
+                     c == IF b.wr["p"] THEN TrSend(b, "p", <<P("noop")>>) ELSE b
+                 IN TrEvent([c EXCEPT !.trs["p"] = "closed"], "p", "transport close")
+         IN IF x.wr["p"] THEN onClose(TrSend([x EXCEPT !.trs["p"] = "closing"], "p", <<P("close")>>))
+            ELSE IF x.disc THEN onClose([x EXCEPT !.trs["p"] = "closing"])
+            ELSE [x EXCEPT !.trs["p"] = "closing", !.sc = TRUE, !.scfn = withFn]
 
-\* a cause reaches OnClose (first step)
-Cause(reason, name) ==
-    /\ OnCloseEnter(reason)
-    /\ H([a |-> name, reason |-> reason])
+(* ---- socket --------------------------------------------------------------- *)
+\* socket.flush up to and including the "flush" listeners: TryLock, state and Writable test, take the buffer
+FlushTake(x, k) ==
+    IF x.fl = <<>> /\ x.rs # "closed" /\ x.wr[x.cur] /\ x.wbuf # <<>>
+    THEN [x EXCEPT !.fl = x.wbuf, !.wbuf = IF Dev("LateClear") THEN x.wbuf ELSE <<>>, !.flt = x.cur, !.flk = k]
+    ELSE x
+Took(x, y) == x.fl = <<>> /\ y.fl # <<>>       \* FlushTake(x, k) = y took a batch
+
+\* socket.closeTransport(discard)
+CloseTransport(x, discard) ==
+    LET a == IF discard /\ x.cur = "p" THEN [x EXCEPT !.disc = TRUE] ELSE x IN TrClose(a, a.cur, TRUE)
+
+\* what the goroutine that called flush does next (rest of onPollRequest / of the upgrade branch of MaybeUpgrade)
+PollTail(x) ==
+    LET a == IF x.wr["p"] /\ x.sc THEN TrSend(x, "p", <<P("noop")>>) ELSE x       \* pending orderly close: trigger an empty send
+    IN IF a.wr["p"] /\ a.trs["p"] = "closed" /\ ~Dev("PollVsClose") THEN TrSend(a, "p", <<P("close")>>) ELSE a
+UpgTail(x) == IF x.rs = "closing" THEN TrClose(x, "w", TRUE) ELSE x
+After(x, k) == CASE k = "poll" -> PollTail(x) [] k = "upg" -> UpgTail(x) [] OTHER -> x
+
+\* socket.flush after the listeners: hand the batch to the transport, emit drain (a waiting Close proceeds), unlock, continue
+FlushHand(x) ==
+    LET t == IF Dev("StaleTransport") THEN x.flt ELSE x.cur
+        a == TrSend([x EXCEPT !.fl = <<>>, !.flk = "none",
+                              !.wbuf = IF Dev("LateClear") THEN <<>> ELSE x.wbuf], t, x.fl)
+        b == IF a.drainClose THEN CloseTransport([a EXCEPT !.drainClose = FALSE], FALSE) ELSE a
+    IN After(b, x.flk)
+
+\* a trigger of flush with continuation k: either the buffer is taken (window open, FlushHand follows) or the tail runs at once
+Flush(x, k) == LET y == FlushTake(x, k) IN IF Took(x, y) THEN y ELSE After(y, k)
+
+\* socket.sendPacket
+SendPacket(x, p) == IF x.rs = "open" THEN Flush([x EXCEPT !.wbuf = Append(@, p)], "none") ELSE x
 
 ----------------------------------------------------------------------------
+H(a) == hist' = Append(hist, a)
+
 (* application *)
 AppSend(m) ==
-    /\ m \notin {sentLog[i] : i \in 1..Len(sentLog)} /\ (\A k \in Msgs : k < m => k \in {sentLog[i] : i \in 1..Len(sentLog)})
-    /\ rs = "open"
-    /\ sentLog' = Append(sentLog, m)
-    /\ LET f == FlushEff(Append(wbuf, Msg(m)), writable, inflight) IN
-       wbuf' = f.buf /\ writable' = f.wr /\ inflight' = f.infl
+    /\ m \notin SeqSet(ob.sent) /\ (\A k \in Msgs : k < m => k \in SeqSet(ob.sent))
+    /\ s.rs = "open"
+    /\ s' = SendPacket(s, Msg(m))
+    /\ ob' = [ob EXCEPT !.sent = Append(@, m)]
     /\ H([a |-> "send", m |-> m])
-    /\ UNCHANGED <<rs, cur, trs, poll, shouldClose, discarded, upgrading, upgraded, cand, registered, count, closing, pingOut,
-                   rcvd, delivered, submitted, nclose, reasons, npolls, npings, stuckPolls>>
+
+\* the goroutine parked in the flush listeners goes on
+FlushGo ==
+    /\ s.fl # <<>>
+    /\ s' = FlushHand(s)
+    /\ UNCHANGED ob
+    /\ H([a |-> "flush.hand"])
 
 \* socket.Close(discard)
 AppClose(discard) ==
     /\ "close" \in Features
-    /\ IF discard /\ rs \in {"open", "closing"}
-       THEN \* closeTransport(true): Discard, transport.Close(-> OnClose("forced close"))
-            /\ discarded' = TRUE
-            /\ IF cur = "p"
-               THEN LET d == PollDoClose(writable, inflight, shouldClose, TRUE) IN
-                    /\ trs["p"] = "open"
-                    /\ writable' = d.wr /\ inflight' = d.infl /\ shouldClose' = d.sc /\ trs' = [trs EXCEPT !["p"] = "closed"]
-                    /\ OnCloseEnter("forced close")
-               ELSE /\ trs["w"] = "open" /\ trs' = [trs EXCEPT !["w"] = "closed"]
-                    /\ UNCHANGED <<writable, inflight, shouldClose>>
-                    /\ OnCloseEnter("forced close")
-            /\ UNCHANGED wbuf
-       ELSE /\ rs = "open" /\ ~discard
-            /\ closing' = closing /\ discarded' = discarded
-            /\ IF wbuf # <<>>
-               THEN rs' = "closing" /\ UNCHANGED <<writable, inflight, shouldClose, trs, wbuf>>      \* waits for the drain event
-               ELSE /\ IF cur = "p"
-                       THEN LET d == PollDoClose(writable, inflight, shouldClose, FALSE) IN
-                            /\ writable' = d.wr /\ inflight' = d.infl /\ shouldClose' = d.sc /\ trs' = [trs EXCEPT !["p"] = d.st]
-                            /\ IF d.st = "closed" THEN OnCloseEnter("forced close") /\ UNCHANGED wbuf
-                               ELSE rs' = "closing" /\ UNCHANGED <<closing, wbuf>>
-                       ELSE /\ trs' = [trs EXCEPT !["w"] = "closed"] /\ UNCHANGED <<writable, inflight, shouldClose, wbuf>>
-                            /\ OnCloseEnter("forced close")
+    /\ IF discard /\ s.rs \in {"open", "closing"} THEN s' = CloseTransport(s, TRUE)
+       ELSE /\ s.rs = "open"
+            /\ LET a == [s EXCEPT !.rs = "closing"] IN
+               s' = IF a.wbuf # <<>> \/ (a.fl # <<>> /\ ~Dev("CloseSkipsTaken")) THEN [a EXCEPT !.drainClose = TRUE]
+                    ELSE CloseTransport(a, FALSE)
+    /\ ob' = IF discard THEN [ob EXCEPT !.hard = TRUE] ELSE [ob EXCEPT !.accepted = SeqSet(ob.sent)]
     /\ H([a |-> "appclose", discard |-> discard])
-    /\ UNCHANGED <<cur, poll, upgrading, upgraded, cand, registered, count, pingOut, sentLog, rcvd, delivered, submitted, nclose, reasons, npolls, npings, stuckPolls>>
+
+\* socket.OnClose, second step: timers, callbacks, clearTransport, then the first listeners of "close"
+\* (the registry's, registered in Handshake before anybody else could, and the application's)
+CloseMid(reason) ==
+    /\ reason \in s.enter
+    /\ LET a == [s EXCEPT !.enter = @ \ {reason}, !.mid = @ \cup {reason}, !.rs = "closed", !.pingOut = FALSE, !.armed = FALSE,
+                          !.att = [t \in T |-> FALSE]]
+           b == TrClose(a, a.cur, FALSE)
+       IN s' = IF b.reg THEN [b EXCEPT !.reg = FALSE, !.count = @ - 1] ELSE b
+    /\ ob' = [ob EXCEPT !.nclose = @ + 1, !.reasons = Append(@, reason)]
+    /\ H([a |-> "onclose.mid", reason |-> reason])
+
+\* .. third step: the candidate's close listener (registered last, at upgrade time) fails the upgrade; the buffer is cleared
+CloseFinish(reason) ==
+    /\ reason \in s.mid
+    /\ LET a == [s EXCEPT !.mid = @ \ {reason}, !.wbuf = <<>>] IN
+       s' = IF a.cand \in {"attached", "probed"}
+            THEN [a EXCEPT !.cand = "dead", !.upgrading = FALSE, !.trs["w"] = "closed"]
+            ELSE a
+    /\ UNCHANGED ob
+    /\ H([a |-> "onclose.finish", reason |-> reason])
+
+\* without the windows the two steps are one (keeps the state space of the families that do not study them small)
+CloseRest(reason) ==
+    /\ reason \in s.enter
+    /\ LET a == [s EXCEPT !.enter = @ \ {reason}, !.rs = "closed", !.pingOut = FALSE, !.armed = FALSE, !.att = [t \in T |-> FALSE]]
+           b == TrClose(a, a.cur, FALSE)
+           c == IF b.reg THEN [b EXCEPT !.reg = FALSE, !.count = @ - 1] ELSE b
+           d == [c EXCEPT !.wbuf = <<>>]
+       IN s' = IF d.cand \in {"attached", "probed"} THEN [d EXCEPT !.cand = "dead", !.upgrading = FALSE, !.trs["w"] = "closed"] ELSE d
+    /\ ob' = [ob EXCEPT !.nclose = @ + 1, !.reasons = Append(@, reason)]
+    /\ H([a |-> "onclose.rest", reason |-> reason])
 
 ----------------------------------------------------------------------------
 (* polling transport *)
-\* the client opens a poll; onPollRequest stores it (CompareAndSwap), marks the transport writable and emits ready (flush)
+\* the client opens a poll: onPollRequest
 CliPoll ==
-    /\ npolls < MaxPolls /\ registered /\ cur = "p"
-    /\ npolls' = npolls + 1
-    /\ IF poll # "none"
-       THEN \* overlap: answered 400, transport error
-            /\ "overlap" \in Features
-            /\ Cause("transport error", "poll.overlap")
-            /\ UNCHANGED <<poll, writable, wbuf, inflight, stuckPolls>>
-       ELSE /\ poll' = "pending"
-            /\ IF trs["p"] = "closed" /\ "PollVsClose" \notin Deviations
-               THEN \* the transport is already closed: release the poll right away with a close packet
-                    /\ inflight' = [inflight EXCEPT !["p"] = Append(inflight["p"], <<P("close")>>)]
-                    /\ UNCHANGED <<writable, wbuf, stuckPolls>>
-               ELSE IF trs["p"] = "closed"
-               THEN /\ stuckPolls' = stuckPolls + 1 /\ writable' = [writable EXCEPT !["p"] = TRUE] /\ UNCHANGED <<wbuf, inflight>>
-               ELSE LET wr1 == [writable EXCEPT !["p"] = TRUE]
-                        f == FlushEff(wbuf, wr1, inflight)
-                        \* pending orderly close: trigger an empty send
-                        infl2 == IF f.wr["p"] /\ shouldClose THEN [f.infl EXCEPT !["p"] = Append(f.infl["p"], <<P("noop")>>)] ELSE f.infl
-                        wr2 == IF f.wr["p"] /\ shouldClose THEN [f.wr EXCEPT !["p"] = FALSE] ELSE f.wr
-                    IN wbuf' = f.buf /\ writable' = wr2 /\ inflight' = infl2 /\ UNCHANGED stuckPolls
+    /\ ob.npolls < MaxPolls /\ s.reg /\ s.cur = "p" /\ s.fl = <<>>
+    /\ ob' = [ob EXCEPT !.npolls = @ + 1,
+                        !.stuck = IF s.poll = "none" /\ s.trs["p"] = "closed" /\ Dev("PollVsClose") THEN @ + 1 ELSE @]
+    /\ IF s.poll # "none"
+       THEN /\ "overlap" \in Features
+            /\ s' = TrEvent(s, "p", "transport error")      \* 400 + OnError("overlap from client")
+            /\ H([a |-> "poll.overlap"])
+       ELSE /\ LET a == [s EXCEPT !.poll = "pending", !.wr["p"] = TRUE] IN
+               s' = IF a.att["p"] THEN Flush(a, "poll") ELSE PollTail(a)       \* emit ready -> socket.flush
             /\ H([a |-> "poll"])
-            /\ UNCHANGED <<rs, closing>>
-    /\ UNCHANGED <<cur, trs, shouldClose, discarded, upgrading, upgraded, cand, registered, count, pingOut, sentLog, rcvd, delivered, submitted, nclose, reasons, npings>>
 
-\* the `go p.send(batch)` goroutine: append close if an orderly close is pending, write to the pending poll
-PollWrite ==
-    /\ inflight["p"] # <<>>
-    /\ LET b0 == Head(inflight["p"])
-           b == IF shouldClose THEN Append(b0, P("close")) ELSE b0
-       IN /\ inflight' = [inflight EXCEPT !["p"] = Tail(inflight["p"])]
-          /\ IF poll = "pending"
-             THEN /\ poll' = "none"
-                  /\ rcvd' = rcvd \o MsgsOf(b)
-                  /\ IF shouldClose
-                     THEN \* the buffered close goes out: shouldClose() -> onClose -> transport closed -> socket.OnClose("forced close")
-                          /\ shouldClose' = FALSE /\ trs' = [trs EXCEPT !["p"] = "closed"]
-                          /\ IF rs # "closed" THEN OnCloseEnter("forced close") ELSE UNCHANGED <<rs, closing>>
-                     ELSE UNCHANGED <<shouldClose, trs, rs, closing>>
-                  /\ H([a |-> "pollwrite", ok |-> TRUE])
-             ELSE \* no pending poll: "polling write error"
-                  /\ UNCHANGED <<poll, rcvd, shouldClose, trs>>
-                  /\ IF rs # "closed" /\ ~discarded THEN OnCloseEnter("transport error") ELSE UNCHANGED <<rs, closing>>
-                  /\ H([a |-> "pollwrite", ok |-> FALSE])
-    /\ UNCHANGED <<cur, wbuf, writable, discarded, upgrading, upgraded, cand, registered, count, pingOut, sentLog, delivered, submitted,
-                   nclose, reasons, npolls, npings, stuckPolls>>
+\* one `go p.send(batch)` goroutine runs (they race for p.mu: any of them may be next)
+PollWrite(i) ==
+    /\ i \in 1..Len(s.infl["p"])
+    /\ LET b0 == s.infl["p"][i]
+           a0 == [s EXCEPT !.infl["p"] = Remove(@, i)]
+           \* a buffered orderly close goes out with this payload: shouldClose() = clear timer; fn(); p.OnClose()
+           b == IF a0.sc THEN Append(b0, P("close")) ELSE b0
+           a1 == IF a0.sc
+                 THEN LET c == [a0 EXCEPT !.sc = FALSE, !.scfn = FALSE]
+                          d == IF a0.scfn THEN CloseEnter(c, "forced close") ELSE c
+                      IN TrEvent([d EXCEPT !.trs["p"] = "closed"], "p", "transport close")
+                 ELSE a0
+       IN IF a1.poll = "pending"
+          THEN /\ s' = [a1 EXCEPT !.poll = "none"]
+               /\ ob' = [ob EXCEPT !.rcvd = @ \o MsgsOf(b)]
+               /\ H([a |-> "pollwrite", ok |-> TRUE, i |-> i])
+          ELSE /\ s' = TrEvent(a1, "p", "transport error")      \* "polling write error" (silenced once the socket let go)
+               /\ UNCHANGED ob
+               /\ H([a |-> "pollwrite", ok |-> FALSE, i |-> i])
+
+\* the close timeout of a buffered orderly close elapses
+CloseTimeoutFire ==
+    /\ "close" \in Features /\ s.sc
+    /\ LET c == [s EXCEPT !.sc = FALSE, !.scfn = FALSE]
+           d == IF s.scfn THEN CloseEnter(c, "forced close") ELSE c
+       IN s' = TrEvent([d EXCEPT !.trs["p"] = "closed"], "p", "transport close")
+    /\ UNCHANGED ob
+    /\ H([a |-> "closetimeout"])
+
+\* the client gives up its pending poll (connection dropped)
+PollAbort ==
+    /\ "abort" \in Features /\ s.poll = "pending" /\ s.reg
+    /\ s' = TrEvent([s EXCEPT !.wr["p"] = FALSE], "p", "transport error")
+    /\ UNCHANGED ob
+    /\ H([a |-> "poll.abort"])
 
 \* the client submits a message (data request, or a frame once upgraded)
 CliMsg(m) ==
-    /\ m \notin {submitted[i] : i \in 1..Len(submitted)} /\ registered
-    /\ submitted' = IF rs = "open" /\ closing = {} THEN Append(submitted, m) ELSE submitted
-    /\ delivered' = IF rs = "open" THEN Append(delivered, m) ELSE delivered
-    /\ rs \in {"open", "closing"}
+    /\ m \notin SeqSet(ob.submitted) /\ m \notin SeqSet(ob.delivered) /\ s.reg /\ s.rs \in {"open", "closing"} /\ s.att[s.cur]
+    /\ ob' = [ob EXCEPT !.submitted = IF s.rs = "open" /\ s.enter = {} THEN Append(@, m) ELSE @,
+                        !.delivered = IF s.rs = "open" THEN Append(@, m) ELSE @]
+    /\ UNCHANGED s
     /\ H([a |-> "climsg", m |-> m])
-    /\ UNCHANGED <<rs, cur, wbuf, writable, trs, poll, inflight, shouldClose, discarded, upgrading, upgraded, cand, registered, count,
-                   closing, pingOut, sentLog, rcvd, nclose, reasons, npolls, npings, stuckPolls>>
 
 \* the client posts a close packet (polling) or closes its socket (websocket)
 PeerClose ==
-    /\ "peer" \in Features /\ registered /\ trs[cur] = "open"
-    /\ IF cur = "p" /\ writable["p"]
-       THEN /\ inflight' = [inflight EXCEPT !["p"] = Append(inflight["p"], <<P("noop")>>)]      \* close pending poll request
-            /\ writable' = [writable EXCEPT !["p"] = FALSE]
-       ELSE UNCHANGED <<inflight, writable>>
-    /\ trs' = [trs EXCEPT ![cur] = "closed"]
-    /\ Cause("transport close", "peerclose")
-    /\ UNCHANGED <<cur, wbuf, poll, shouldClose, discarded, upgrading, upgraded, cand, registered, count, pingOut, sentLog, rcvd, delivered,
-                   submitted, nclose, reasons, npolls, npings, stuckPolls>>
+    /\ "peer" \in Features /\ s.reg /\ s.trs[s.cur] = "open"
+    /\ LET t == s.cur
+           a == IF t = "p" /\ s.wr["p"] THEN TrSend(s, "p", <<P("noop")>>) ELSE s      \* close pending poll request
+       IN s' = TrEvent([a EXCEPT !.trs[t] = "closed"], t, "transport close")
+    /\ UNCHANGED ob
+    /\ H([a |-> "peerclose"])
 
 ----------------------------------------------------------------------------
-(* websocket transport (after an upgrade) *)
+(* websocket transport: one `go w.send(batch)` goroutine runs *)
 WsWrite ==
-    /\ inflight["w"] # <<>>
-    /\ inflight' = [inflight EXCEPT !["w"] = Tail(inflight["w"])]
-    /\ rcvd' = IF trs["w"] = "open" THEN rcvd \o MsgsOf(Head(inflight["w"])) ELSE rcvd
-    /\ LET f == FlushEff(wbuf, [writable EXCEPT !["w"] = TRUE], [inflight EXCEPT !["w"] = Tail(inflight["w"])]) IN
-       IF cur = "w" THEN wbuf' = f.buf /\ writable' = f.wr /\ inflight' = f.infl
-       ELSE UNCHANGED wbuf /\ writable' = [writable EXCEPT !["w"] = TRUE]
+    /\ s.infl["w"] # <<>>
+    /\ LET b == Head(s.infl["w"])
+           live == s.trs["w"] = "open" \/ ~Dev("WsCloseCutsSend")
+           a == [s EXCEPT !.infl["w"] = Tail(@), !.wr["w"] = TRUE]
+       IN /\ s' = IF a.att["w"] THEN Flush(a, "none") ELSE a      \* drain, writable, ready -> socket.flush
+          /\ ob' = IF live THEN [ob EXCEPT !.rcvd = @ \o MsgsOf(b)]
+                   ELSE [ob EXCEPT !.cut = IF MsgsOf(b) # <<>> THEN @ + 1 ELSE @]
     /\ H([a |-> "wswrite"])
-    /\ UNCHANGED <<rs, cur, trs, poll, shouldClose, discarded, upgrading, upgraded, cand, registered, count, closing, pingOut, sentLog,
-                   delivered, submitted, nclose, reasons, npolls, npings, stuckPolls>>
 
 ----------------------------------------------------------------------------
 (* upgrade *)
 CandOpen ==
-    /\ "upgrade" \in Features /\ cand = "none" /\ registered /\ ~upgrading /\ ~upgraded
-    /\ cand' = "attached" /\ upgrading' = TRUE
-    /\ trs' = [trs EXCEPT !["w"] = "open"] /\ writable' = [writable EXCEPT !["w"] = TRUE]
+    /\ "upgrade" \in Features /\ s.cand = "none" /\ s.reg /\ ~s.upgrading /\ ~s.upgraded
+    /\ s' = [s EXCEPT !.cand = "attached", !.upgrading = TRUE, !.trs["w"] = "open", !.wr["w"] = TRUE]
+    /\ UNCHANGED ob
     /\ H([a |-> "cand.open"])
-    /\ UNCHANGED <<rs, cur, wbuf, poll, inflight, shouldClose, discarded, upgraded, registered, count, closing, pingOut, sentLog, rcvd,
-                   delivered, submitted, nclose, reasons, npolls, npings, stuckPolls>>
 CandProbe ==
-    /\ cand = "attached" /\ cand' = "probed"
+    /\ s.cand = "attached"
+    /\ s' = TrSend([s EXCEPT !.cand = "probed"], "w", <<P("pong")>>)
+    /\ UNCHANGED ob
     /\ H([a |-> "cand.probe"])
-    /\ UNCHANGED <<rs, cur, wbuf, writable, trs, poll, inflight, shouldClose, discarded, upgrading, upgraded, registered, count, closing, pingOut,
-                   sentLog, rcvd, delivered, submitted, nclose, reasons, npolls, npings, stuckPolls>>
-\* the 100 ms check: release a pending poll with a noop (hand-off WITHOUT flushMu)
+\* the 100 ms check: release a pending poll with a noop; since fix ... it steps aside while a flush is in progress
 CheckTick ==
-    /\ cand = "probed" /\ cur = "p" /\ writable["p"]
-    /\ writable' = [writable EXCEPT !["p"] = FALSE]
-    /\ inflight' = [inflight EXCEPT !["p"] = Append(inflight["p"], <<P("noop")>>)]
+    /\ s.cand = "probed" /\ s.cur = "p" /\ s.wr["p"] /\ s.att["p"]
+    /\ (s.fl = <<>> \/ Dev("CheckNoLock"))
+    /\ s' = TrSend(s, "p", <<P("noop")>>)
+    /\ UNCHANGED ob
     /\ H([a |-> "check"])
-    /\ UNCHANGED <<rs, cur, wbuf, trs, poll, shouldClose, discarded, upgrading, upgraded, cand, registered, count, closing, pingOut, sentLog, rcvd,
-                   delivered, submitted, nclose, reasons, npolls, npings, stuckPolls>>
 \* the conformant client sends "upgrade" only after the probe pong and with no poll outstanding
 CandUpgrade ==
-    /\ cand = "probed" /\ poll = "none" /\ inflight["p"] = <<>> /\ rs # "closed" /\ closing = {}
-    /\ cand' = "none" /\ upgrading' = FALSE /\ upgraded' = TRUE /\ discarded' = TRUE
-    /\ cur' = "w"
-    /\ LET d == PollDoClose(writable, inflight, shouldClose, TRUE)
-           f == FlushEff(wbuf, d.wr, d.infl)
-       IN /\ trs' = [trs EXCEPT !["p"] = "closed"] /\ shouldClose' = d.sc
-          /\ \* flush on the new transport
-             IF d.wr["w"] /\ wbuf # <<>>
-             THEN wbuf' = <<>> /\ writable' = [d.wr EXCEPT !["w"] = FALSE] /\ inflight' = [d.infl EXCEPT !["w"] = Append(d.infl["w"], wbuf)]
-             ELSE wbuf' = wbuf /\ writable' = d.wr /\ inflight' = d.infl
-    /\ H([a |-> "cand.upgrade"])
-    /\ UNCHANGED <<rs, poll, registered, count, closing, pingOut, sentLog, rcvd, delivered, submitted, nclose, reasons, npolls, npings, stuckPolls>>
+    /\ s.cand = "probed" /\ s.poll = "none" /\ s.infl["p"] = <<>> /\ s.infl["w"] = <<>>
+    /\ IF s.rs = "closed" /\ ~Dev("UpgradeOnClosed")
+       THEN \* too late: cleanup, the candidate is closed
+            /\ "late" \in Features
+            /\ s' = [s EXCEPT !.cand = "dead", !.upgrading = FALSE, !.trs["w"] = "closed"]
+            /\ H([a |-> "cand.upgrade.late"])
+       ELSE /\ (s.rs # "closed" \/ "late" \in Features)
+            /\ LET a == [s EXCEPT !.cand = "none", !.upgrading = FALSE, !.upgraded = TRUE, !.disc = TRUE,
+                                  !.att = [t \in T |-> FALSE], !.armed = FALSE]       \* cleanup, Discard, clearTransport ..
+                   b == TrClose(a, "p", FALSE)
+                   c == [b EXCEPT !.cur = "w", !.att["w"] = TRUE]                     \* .. setTransport
+               IN s' = Flush(c, "upg")
+            /\ H([a |-> "cand.upgrade"])
+    /\ UNCHANGED ob
 \* the candidate fails (unexpected packet, connection lost, upgrade timeout): only the candidate is closed
 CandFail ==
-    /\ cand \in {"attached", "probed"}
-    /\ cand' = "none" /\ upgrading' = FALSE
-    /\ trs' = [trs EXCEPT !["w"] = "none"] /\ writable' = [writable EXCEPT !["w"] = FALSE]
+    /\ s.cand \in {"attached", "probed"}
+    /\ s' = [s EXCEPT !.cand = "none", !.upgrading = FALSE, !.trs["w"] = "none", !.wr["w"] = FALSE, !.infl["w"] = <<>>]
+    /\ UNCHANGED ob
     /\ H([a |-> "cand.fail"])
-    /\ UNCHANGED <<rs, cur, wbuf, poll, inflight, shouldClose, discarded, upgraded, registered, count, closing, pingOut, sentLog, rcvd, delivered,
-                   submitted, nclose, reasons, npolls, npings, stuckPolls>>
 
 ----------------------------------------------------------------------------
 (* heartbeat (revision 4), time abstracted: the ping timer fires, the client answers or the deadline passes *)
 PingFire ==
-    /\ "heartbeat" \in Features /\ rs = "open" /\ ~pingOut /\ closing = {} /\ npings < MaxPings
-    /\ pingOut' = TRUE /\ npings' = npings + 1
-    /\ LET f == FlushEff(Append(wbuf, P("ping")), writable, inflight) IN wbuf' = f.buf /\ writable' = f.wr /\ inflight' = f.infl
+    /\ "heartbeat" \in Features /\ s.rs = "open" /\ ~s.pingOut /\ s.enter = {} /\ ob.npings < MaxPings
+    /\ s' = [SendPacket(s, P("ping")) EXCEPT !.pingOut = TRUE, !.armed = TRUE]
+    /\ ob' = [ob EXCEPT !.npings = @ + 1]
     /\ H([a |-> "ping"])
-    /\ UNCHANGED <<rs, cur, trs, poll, shouldClose, discarded, upgrading, upgraded, cand, registered, count, closing, sentLog, rcvd, delivered,
-                   submitted, nclose, reasons, npolls, stuckPolls>>
 Pong ==
-    /\ pingOut /\ rs = "open" /\ pingOut' = FALSE
+    /\ s.pingOut /\ s.rs = "open" /\ s.att[s.cur]
+    /\ s' = [s EXCEPT !.pingOut = FALSE, !.armed = FALSE]
+    /\ UNCHANGED ob
     /\ H([a |-> "pong"])
-    /\ UNCHANGED <<rs, cur, wbuf, writable, trs, poll, inflight, shouldClose, discarded, upgrading, upgraded, cand, registered, count, closing,
-                   sentLog, rcvd, delivered, submitted, nclose, reasons, npolls, npings, stuckPolls>>
 PingTimeout ==
-    /\ pingOut /\ Cause("ping timeout", "pingtimeout")
-    /\ UNCHANGED <<cur, wbuf, writable, trs, poll, inflight, shouldClose, discarded, upgrading, upgraded, cand, registered, count, pingOut,
-                   sentLog, rcvd, delivered, submitted, nclose, reasons, npolls, npings, stuckPolls>>
+    /\ s.pingOut /\ s.armed /\ s.rs # "closed"
+    /\ s' = CloseEnter(s, "ping timeout")
+    /\ UNCHANGED ob
+    /\ H([a |-> "pingtimeout"])
+
+Windows == "window" \in Features
+CloseWin == "closewin" \in Features
 
 Next == \/ \E m \in Msgs : AppSend(m)
+        \/ FlushGo
         \/ \E d \in BOOLEAN : AppClose(d)
-        \/ CliPoll \/ PollWrite \/ WsWrite \/ PeerClose
+        \/ CliPoll \/ (\E i \in 1..2 : PollWrite(i)) \/ WsWrite \/ PeerClose \/ PollAbort \/ CloseTimeoutFire
         \/ \E m \in CliMsgs : CliMsg(m)
-        \/ \E r \in closing : OnCloseFinish(r)
+        \/ (CloseWin /\ \E r \in s.enter : CloseMid(r))
+        \/ (CloseWin /\ \E r \in s.mid : CloseFinish(r))
+        \/ (~CloseWin /\ \E r \in s.enter : CloseRest(r))
         \/ CandOpen \/ CandProbe \/ CheckTick \/ CandUpgrade \/ CandFail
         \/ PingFire \/ Pong \/ PingTimeout
 
-Spec == Init /\ [][Next]_vars
+\* without the feature "window" a flush in progress is handed over before anything else happens
+NextW == IF ~Windows /\ s.fl # <<>> THEN FlushGo ELSE Next
+
+Spec == Init /\ [][NextW]_vars
 
 ----------------------------------------------------------------------------
 IsPrefix(a, b) == Len(a) <= Len(b) /\ SubSeq(b, 1, Len(a)) = a
-Quiet == closing = {} /\ inflight["p"] = <<>> /\ inflight["w"] = <<>>
+InClose == s.enter # {} \/ s.mid # {}
+Quiet == ~InClose /\ s.infl["p"] = <<>> /\ s.infl["w"] = <<>> /\ s.fl = <<>>
+
+TypeOK == /\ s.rs \in {"open", "closing", "closed"} /\ s.cur \in T /\ s.poll \in {"none", "pending"}
+          /\ s.cand \in {"none", "attached", "probed", "dead"} /\ s.flk \in {"none", "poll", "upg"}
+          /\ \A t \in T : s.trs[t] \in {"none", "open", "closing", "closed"}
 
 \* C01: what the client has received is always a prefix of what Send accepted
-C01_Prefix == IsPrefix(rcvd, sentLog)
+C01_Prefix == IsPrefix(ob.rcvd, ob.sent)
+\* C01: on an open, quiet session nothing accepted is lost: it was received, or is buffered / in flight in order
+C01_NothingLost == (s.rs = "open" /\ ~InClose) =>
+                      LET pending == MsgsOf(s.fl) \o MsgsOf(s.wbuf)
+                          flying == MsgsOf(Flat(s.infl[s.cur]))
+                      IN ob.sent = ob.rcvd \o flying \o pending
 \* C02: what the application was handed is what the client submitted while the session was open, in order
-C02_Order == IsPrefix(submitted, delivered) \/ IsPrefix(delivered, submitted)
-\* C03: at most one close event; the state never leaves closed
-C03_OneClose == nclose <= 1
-C03_ClosedIsFinal == nclose = 1 => rs = "closed"
+C02_Order == IsPrefix(ob.submitted, ob.delivered) \/ IsPrefix(ob.delivered, ob.submitted)
+\* C03: at most one close event; the state never leaves closed; a close event only for a cause
+C03_OneClose == ob.nclose <= 1
+C03_ClosedIsFinal == ob.nclose = 1 => s.rs = "closed"
+\* C03: an open session is not closed by the server's own doing: "transport error" needs a client fault
+\* (overlap, abort) - the hand-offs racing each other is not one
+C03_NoSpuriousError == ("overlap" \notin Features /\ "abort" \notin Features) => "transport error" \notin (s.enter \cup s.mid \cup SeqSet(ob.reasons))
 \* C04: registry and count coincide with "not closed" whenever no close is in progress
-C04_Registry == closing = {} => (registered <=> rs # "closed") /\ count = (IF registered THEN 1 ELSE 0)
-C04_NoUnderflow == count >= 0
+C04_Registry == ~InClose => (s.reg <=> s.rs # "closed") /\ s.count = (IF s.reg THEN 1 ELSE 0)
+C04_NoUnderflow == s.count >= 0
 \* C11/C12: a poll accepted is not left pending once the session is closed and everything has been written
-C12_PollReleased == (Quiet /\ rs = "closed" /\ ~shouldClose) => (poll = "none" \/ (stuckPolls > 0 /\ "PollVsClose" \in Deviations))
-C11_NoStuckPoll == stuckPolls = 0
-\* C08: the transport changes only through CandUpgrade, at most once
-C08_AtMostOnce == (cur = "w") => upgraded
-C08_FailureKeepsSession == (cand = "none" /\ ~upgraded /\ rs = "open") => ~upgrading
+C12_PollReleased == (Quiet /\ s.rs = "closed" /\ ~s.sc) => (s.poll = "none" \/ (ob.stuck > 0 /\ Dev("PollVsClose")))
+C11_NoStuckPoll == ob.stuck = 0
+\* C12: whatever was accepted before a graceful Close has reached the client once the session is closed and quiet,
+\* unless something else ended the session first
+C12_BufferedFirst == (Quiet /\ s.rs = "closed" /\ ob.reasons = <<"forced close">> /\ ~ob.hard) => ob.accepted \subseteq SeqSet(ob.rcvd)
+\* C08: the transport changes only through CandUpgrade, at most once, never on a closed session
+C08_AtMostOnce == (s.cur = "w") => s.upgraded
+C08_FailureKeepsSession == (s.cand = "none" /\ ~s.upgraded /\ s.rs = "open") => ~s.upgrading
+C08_NotOnClosed == (s.upgraded /\ ob.nclose = 1) => (s.cur = "w" => ~Dev("UpgradeOnClosed"))
+\* C03/C08: after the close event nothing else happens to the session: an upgrade after it is a breach
+C03_SilentAfterClose == [][(ob.nclose = 1 /\ ~s.upgraded) => ~s'.upgraded]_vars
+\* C07: while a ping is outstanding on an open session its deadline is armed (an upgrade completing between a ping and
+\* its deadline cancels the deadline: upstream design, excluded by the property's quantifier)
+C07_DeadlineArmed == (s.pingOut /\ s.rs = "open" /\ ~InClose /\ ~s.upgraded) => s.armed
 
-Emit == (npolls = MaxPolls \/ rs = "closed") => PrintT("BEHAVIOUR " \o ToJson(hist))
+Emit == (ob.npolls = MaxPolls \/ (s.rs = "closed" /\ Quiet)) => PrintT("BEHAVIOUR " \o ToJson(hist))
 =============================================================================
